@@ -366,7 +366,7 @@ func main() {
 		GenerateCodeVerifierString GenerateCodeChallenge ManualSignIn Validate OAuthStart
 		decodeTicketFromRequest newTicket saveSession setCookie loadSession clearCookie clearSession Save Load Clear
 		getValidatedSession refreshSessionIfNeeded needsRefresh ObtainLock ReleaseLock refreshSession validateSession sessionRefresher sessionValidator
-		CreatedAtNow IsExpired loadCookie DecodeSessionState cookieForSession setSessionCookie makeSessionCookie clearCookiesExcept SignedValue splitCookie isSessionCookieName splitCookieName Atoi LastIndex Cookies makeCookie SplitHostPort HasSuffix HasPrefix MatchString Parse IsEndpointAllowed validateRedirect Cookie joinCookies MakeCookieFromOptions IsProxied Get ParseRequestURI Index isAllowedMethod isAllowedPath Fprintf EqualFold
+		CreatedAtNow IsExpired loadCookie DecodeSessionState cookieForSession setSessionCookie makeSessionCookie clearCookiesExcept SignedValue splitCookie isSessionCookieName splitCookieName Atoi LastIndex Cookies makeCookie SplitHostPort HasSuffix HasPrefix MatchString Parse IsEndpointAllowed validateRedirect Cookie joinCookies MakeCookieFromOptions IsProxied Get ParseRequestURI Index isAllowedMethod isAllowedPath Fprintf EqualFold ReadAll Do do Del Add Set Values Nonce New Equal Write Sum Split Atoi After Before DecodeString EncodeToString Unmarshal Marshal decrypt encrypt ReadFull Sprintf Obtain Release Exchange Token TokenSource getClaimFrom loadProfileClaims coerceClaim splitAuthHeader getBasicAuthCredentials MatchString Join HasSuffix ToLower Path PathPrefix Slice ReplaceAllString ParseQuery Encode Query Mask Size To4 To16 ParseIP ParseCIDR TrimSpace IndexRune Contains GetClaim
 		isPreflightRequestAllowed isAllowedRoute isTrustedIP GetClientIP Has verifyAudience Verify Claims isValidAudience buildSessionFromClaims
 		verifyIDToken createSession redeemRefreshToken checkNonce GetClaimInto CheckNonce VerifyConnection
 		Lock Unlock RLock RUnlock StorePointer LoadPointer createHtpasswdMap ReadAll`) {
@@ -397,6 +397,24 @@ func main() {
 		{"oauthproxy.go", "isAllowedMethod"}, {"oauthproxy.go", "isAllowedPath"}, {"oauthproxy.go", "OAuthProxy.isAllowedRoute"}, {"oauthproxy.go", "OAuthProxy.isTrustedIP"},
 		{"pkg/requests/util/util.go", "GetRequestPath"}, {"pkg/requests/util/util.go", "GetRequestURI"}, {"pkg/requests/util/util.go", "GetRequestHost"}, {"pkg/requests/util/util.go", "GetRequestProto"},
 		{"pkg/middleware/redirect_to_https.go", "redirectToHTTPS"},
+		{"pkg/requests/builder.go", "builder.Do"}, {"pkg/requests/builder.go", "builder.do"},
+		{"pkg/requests/result.go", "result.UnmarshalInto"}, {"pkg/requests/result.go", "result.UnmarshalSimpleJSON"}, {"pkg/requests/result.go", "result.getBodyForUnmarshal"},
+		{"providers/provider_data.go", "ProviderData.buildSessionFromClaims"}, {"providers/provider_data.go", "ProviderData.checkNonce"}, {"providers/provider_data.go", "ProviderData.verifyIDToken"},
+		{"providers/oidc.go", "OIDCProvider.redeemRefreshToken"}, {"providers/oidc.go", "OIDCProvider.Redeem"},
+		{"pkg/providers/oidc/verifier.go", "idTokenVerifier.verifyAudience"}, {"pkg/providers/oidc/verifier.go", "idTokenVerifier.isValidAudience"},
+		{"pkg/providers/util/claim_extractor.go", "claimExtractor.GetClaim"}, {"pkg/providers/util/claim_extractor.go", "claimExtractor.GetClaimInto"},
+		{"pkg/middleware/jwt_session.go", "jwtSessionLoader.getJwtSession"}, {"pkg/middleware/jwt_session.go", "jwtSessionLoader.findTokenFromHeader"}, {"pkg/middleware/jwt_session.go", "jwtSessionLoader.getBasicToken"},
+		{"pkg/middleware/basic_session.go", "getBasicSession"},
+		{"pkg/middleware/headers.go", "stripHeaders"}, {"pkg/middleware/headers.go", "injectRequestHeaders"}, {"pkg/middleware/headers.go", "injectResponseHeaders"}, {"pkg/middleware/headers.go", "NewRequestHeaderInjector"}, {"pkg/middleware/headers.go", "flattenHeaders"},
+		{"pkg/header/injector.go", "newClaimInjector"},
+		{"oauthproxy.go", "extractAllowedEntities"}, {"oauthproxy.go", "checkAllowedEmailDomains"}, {"oauthproxy.go", "checkAllowedGroups"}, {"oauthproxy.go", "checkAllowedEmails"}, {"oauthproxy.go", "authOnlyAuthorize"},
+		{"validator.go", "isEmailValidWithDomains"}, {"validator.go", "newValidatorImpl"},
+		{"pkg/cookies/csrf.go", "NewCSRF"}, {"pkg/cookies/csrf.go", "LoadCSRFCookie"}, {"pkg/cookies/csrf.go", "decodeCSRFCookie"}, {"pkg/cookies/csrf.go", "csrf.cookieName"}, {"pkg/cookies/csrf.go", "ExtractStateSubstring"}, {"pkg/cookies/csrf.go", "csrf.SetCookie"}, {"pkg/cookies/csrf.go", "csrf.ClearCookie"},
+		{"pkg/encryption/utils.go", "Validate"}, {"pkg/encryption/utils.go", "SignedValue"}, {"pkg/encryption/utils.go", "cookieSignature"}, {"pkg/encryption/utils.go", "checkHmac"}, {"pkg/encryption/nonce.go", "CheckNonce"}, {"pkg/encryption/nonce.go", "HashNonce"},
+		{"pkg/sessions/persistence/ticket.go", "newTicket"}, {"pkg/sessions/persistence/ticket.go", "decodeTicketFromRequest"}, {"pkg/sessions/persistence/ticket.go", "ticket.saveSession"}, {"pkg/sessions/persistence/ticket.go", "ticket.loadSession"},
+		{"pkg/sessions/redis/lock.go", "Lock.Obtain"}, {"pkg/sessions/redis/lock.go", "Lock.Release"},
+		{"pkg/upstream/proxy.go", "NewProxy"}, {"pkg/upstream/proxy.go", "sortByPathLongest"}, {"pkg/upstream/proxy.go", "multiUpstreamProxy.registerSimpleHandler"}, {"pkg/upstream/rewrite.go", "rewritePath"}, {"pkg/upstream/rewrite.go", "splitPathAndQuery"}, {"pkg/upstream/http.go", "setProxyDirector"},
+		{"pkg/ip/net_set.go", "NetSet.Has"}, {"pkg/ip/net_set.go", "NetSet.AddIPNet"}, {"pkg/ip/net_set.go", "NetSet.getNetMaps"}, {"pkg/ip/net_set.go", "ipNetMap.has"}, {"pkg/ip/parse_ip_net.go", "ParseIPNet"}, {"pkg/ip/realclientip.go", "xForwardedForClientIPParser.GetRealClientIP"}, {"pkg/ip/realclientip.go", "GetClientIP"},
 		{"pkg/authentication/basic/htpasswd.go", "htpasswdMap.loadHTPasswdFile"}, {"pkg/authentication/basic/htpasswd.go", "htpasswdMap.Validate"},
 		{"validator.go", "UserMap.IsValid"}, {"validator.go", "UserMap.LoadAuthenticatedEmailsFile"},
 	} {
